@@ -371,7 +371,7 @@ func genInstants(rt *rapid.T) []time.Time {
 
 func TestCronParseNext(t *testing.T) {
 	sec := vk.Sec(t.Name())
-	vk.Check(t, 6000, 60000, func(rt *rapid.T) {
+	vk.Check(t, 15000, 120000, func(rt *rapid.T) {
 		c := cronCase{SlowBudget: 1}
 		c.Std, c.Opt = genCronOpt(rt, sec)
 		c.Spec = genCronSpec(rt, c.Std, c.Opt)
